@@ -14,6 +14,7 @@ import (
 	"net/http/httptest"
 	"net/netip"
 	"strings"
+	"sync"
 
 	"github.com/labstack/echo/v4"
 )
@@ -77,6 +78,12 @@ type c10ReqJ struct {
 	XFF    []lat1 `json:"xff"`
 }
 
+type c10Phase struct {
+	Ext  int       `json:"ext"`
+	Opts []c10Opt  `json:"opts"`
+	Reqs []c10ReqJ `json:"reqs"`
+}
+
 type c10Case struct {
 	Kind int `json:"kind"` // 0 = requests through one extractor, 1 = classification table
 	Ext  int `json:"ext"`  // 0 direct, 1 X-Real-IP, 2 X-Forwarded-For
@@ -92,6 +99,12 @@ type c10Case struct {
 	// further, unrelated requests served afterwards by the same Echo instance / extractor
 	// closure; the base request is repeated after them and must give the same answer
 	More []c10ReqJ `json:"more"`
+	// round 6: the application REPLACES Echo.IPExtractor after the requests above were served (and while a
+	// context acquired earlier is still held): these requests go through the same Echo instance afterwards
+	Phase2 *c10Phase `json:"phase2,omitempty"`
+	// Kind 2: the requests of More are issued concurrently through ONE extractor / one Echo
+	Par  int `json:"par,omitempty"`  // goroutines
+	Iter int `json:"iter,omitempty"` // calls per goroutine
 	// Kind 0
 	Remote lat1     `json:"remote"`
 	Real   []lat1   `json:"real"`     // X-Real-Ip values
@@ -309,10 +322,18 @@ func c10Run(ci any) (res Result) {
 	if c.Kind == 1 {
 		return c10RunTable(c)
 	}
+	if c.Kind == 2 {
+		return c10RunConcurrent(c)
+	}
 	opts, nets := c.options()
 	ext := c10Extractor(c.Ext, opts)
 	e := echo.New()
 	e.IPExtractor = ext
+	// a context taken from the pool and one created directly while the FIRST extractor is installed; both
+	// are used again after the extractor was replaced (Phase2)
+	held := e.AcquireContext()
+	defer e.ReleaseContext(held)
+	made := e.NewContext(httptest.NewRequest(http.MethodGet, "/", nil), httptest.NewRecorder())
 	var seen string
 	e.GET("/", func(ctx echo.Context) error {
 		seen = ctx.RealIP()
@@ -435,9 +456,9 @@ func c10Run(ci any) (res Result) {
 	}
 	results := make([]string, len(reqs))
 	var reqWire, obs []string
-	for i, q := range reqs {
+	tokensFor := func(extKind int, q c10Req) {
 		h := c10Host(q.remote)
-		switch c.Ext {
+		switch extKind {
 		case 1:
 			addTok(h)
 			hv := ""
@@ -451,6 +472,10 @@ func c10Run(ci any) (res Result) {
 				addTok(c10Norm(t))
 			}
 		}
+	}
+	for i, q := range reqs {
+		h := c10Host(q.remote)
+		tokensFor(c.Ext, q)
 		seen = "<handler did not run>"
 		rec := httptest.NewRecorder()
 		e.ServeHTTP(rec, c10BuildReq(q))
@@ -461,6 +486,50 @@ func c10Run(ci any) (res Result) {
 		results[i] = seen
 		reqWire = append(reqWire, wStr(q.remote), wStrs(q.real), wStrs(q.xff))
 		obs = append(obs, wStr(h), wStr(seen))
+		if i == 0 {
+			held.Reset(c10BuildReq(q), httptest.NewRecorder())
+			made.SetRequest(c10BuildReq(q))
+			if hv, mv := held.RealIP(), made.RealIP(); hv != seen || mv != seen {
+				fail("request 0: an acquired context answers %q, a context from NewContext %q, the handler's context %q", hv, mv, seen)
+			}
+		}
+	}
+
+	// ---- the application replaces the extractor; the same Echo instance (same context pool, the held
+	// contexts) serves further requests: every answer must come from the NEW extractor
+	var reqWire2, obs2 []string
+	var c2 *c10Case
+	if c.Phase2 != nil {
+		c2 = &c10Case{Ext: c.Phase2.Ext, Opts: c.Phase2.Opts}
+		opts2, nets2 := c2.options()
+		ext2 := c10Extractor(c2.Ext, opts2)
+		e.IPExtractor = ext2
+		tags = append(tags, fmt.Sprintf("replaced-ext-%d-by-%d", c.Ext, c2.Ext))
+		for i, m := range c.Phase2.Reqs {
+			q := c10Req{string(m.Remote), unlat1s(m.Real), unlat1s(m.XFF)}
+			tokensFor(c2.Ext, q)
+			seen = "<handler did not run>"
+			e.ServeHTTP(httptest.NewRecorder(), c10BuildReq(q))
+			want, _, _ := c10Ref(c2, nets2, q)
+			if seen != want {
+				fail("after Echo.IPExtractor was replaced (extractor %d -> %d), request %d (peer %q X-Real-Ip=%q X-Forwarded-For=%q): RealIP() = %q, the installed extractor's reading gives %q",
+					c.Ext, c2.Ext, i, q.remote, strings.Join(q.real, "|"), strings.Join(q.xff, "|"), seen, want)
+			}
+			if d := ext2(c10BuildReq(q)); d != seen {
+				fail("after the replacement, request %d: Context.RealIP()=%q but the installed extractor returns %q", i, seen, d)
+			}
+			held.Reset(c10BuildReq(q), httptest.NewRecorder())
+			made.SetRequest(c10BuildReq(q))
+			if hv, mv := held.RealIP(), made.RealIP(); hv != want || mv != want {
+				fail("after Echo.IPExtractor was replaced (extractor %d -> %d), request %d: a context acquired before the replacement answers %q, one created by NewContext before it %q; the installed extractor's reading gives %q",
+					c.Ext, c2.Ext, i, hv, mv, want)
+			}
+			if seen != c10Host(q.remote) {
+				tags = append(tags, "phase2-result-from-header")
+			}
+			reqWire2 = append(reqWire2, wStr(q.remote), wStrs(q.real), wStrs(q.xff))
+			obs2 = append(obs2, wStr(c10Host(q.remote)), wStr(seen))
+		}
 	}
 
 	// ---- model-free oracle
@@ -526,9 +595,144 @@ func c10Run(ci any) (res Result) {
 			tw = append(tw, "1", wBytes(t.ip))
 		}
 	}
+	if c2 != nil {
+		n2 := len(c.Phase2.Reqs)
+		ops := wJoin("2", c.cfgWire(), wInt(c.Ext), strings.Join(tw, " "), wInt(len(reqs)), strings.Join(reqWire, " "),
+			c2.cfgWire(), wInt(c2.Ext), wInt(n2), strings.Join(reqWire2, " "))
+		return Result{Ops: ops, Obs: wJoin(wInt(len(reqs)+n2), strings.Join(append(obs, obs2...), " ")), Oracle: oracle, Tags: tags, Nontrivial: true}
+	}
 	ops := wJoin("0", c.cfgWire(), wInt(c.Ext), strings.Join(tw, " "), wInt(len(reqs)), strings.Join(reqWire, " "))
 	return Result{Ops: ops, Obs: wJoin(wInt(len(reqs)), strings.Join(obs, " ")), Oracle: oracle, Tags: tags,
 		Nontrivial: r0 != host || len(rel) > 0}
+}
+
+// c10RunConcurrent: Par goroutines issue the requests of More Iter times each, at the same time, through ONE
+// extractor value and ONE Echo instance (half of the goroutines call the extractor, the others go through
+// ServeHTTP and Context.RealIP).  Every single answer must be the answer the property's reading gives for that
+// request — which is also what the same call returns when nothing else is running.  The model sees the
+// sequential run of the request set.
+func c10RunConcurrent(c *c10Case) Result {
+	if len(c.More) == 0 {
+		return Result{Obs: "0", Ops: "", Tags: []string{"concurrent-empty"}}
+	}
+	opts, nets := c.options()
+	ext := c10Extractor(c.Ext, opts)
+	e := echo.New()
+	e.IPExtractor = ext
+	e.GET("/", func(ctx echo.Context) error { return ctx.String(http.StatusOK, ctx.RealIP()) })
+	oracle := ""
+	var reqs []c10Req
+	for _, m := range c.More {
+		reqs = append(reqs, c10Req{string(m.Remote), unlat1s(m.Real), unlat1s(m.XFF)})
+	}
+	// sequential pass: reference reading, model line
+	seenTok := map[string]bool{}
+	tw := []string{}
+	nt := 0
+	addTok := func(t string) {
+		if seenTok[t] {
+			return
+		}
+		seenTok[t] = true
+		nt++
+		tw = append(tw, wStr(t))
+		if ip := net.ParseIP(t); ip == nil {
+			tw = append(tw, "0")
+		} else {
+			tw = append(tw, "1", wBytes(ip))
+		}
+	}
+	want := make([]string, len(reqs))
+	var reqWire, obs []string
+	for i, q := range reqs {
+		h := c10Host(q.remote)
+		switch c.Ext {
+		case 1:
+			addTok(h)
+			hv := ""
+			if len(q.real) > 0 {
+				hv = q.real[0]
+			}
+			addTok(c10Strip(hv))
+		case 2:
+			addTok(c10Norm(h))
+			for _, t := range c10Entries(q.xff) {
+				addTok(c10Norm(t))
+			}
+		}
+		want[i], _, _ = c10Ref(c, nets, q)
+		got := ext(c10BuildReq(q))
+		if got != want[i] && oracle == "" {
+			oracle = fmt.Sprintf("request %d alone: extractor %d returned %q, the property's reading gives %q", i, c.Ext, got, want[i])
+		}
+		reqWire = append(reqWire, wStr(q.remote), wStrs(q.real), wStrs(q.xff))
+		obs = append(obs, wStr(h), wStr(got))
+	}
+	// concurrent pass
+	par, iter := c.Par, c.Iter
+	if par < 2 {
+		par = 2
+	}
+	if iter < 1 {
+		iter = 1
+	}
+	type bad struct {
+		g, it, i int
+		got      string
+		panicked bool
+	}
+	bads := make([]*bad, par)
+	var wg sync.WaitGroup
+	start := make(chan struct{})
+	for g := 0; g < par; g++ {
+		wg.Add(1)
+		go func(g int) {
+			defer wg.Done()
+			defer func() {
+				if p := recover(); p != nil && bads[g] == nil {
+					bads[g] = &bad{g: g, got: fmt.Sprint(p), panicked: true}
+				}
+			}()
+			// every goroutine owns its request objects
+			mine := make([]*http.Request, len(reqs))
+			for i, q := range reqs {
+				mine[i] = c10BuildReq(q)
+			}
+			<-start
+			for it := 0; it < iter; it++ {
+				i := (it*7 + g*3) % len(reqs)
+				var got string
+				if g%2 == 0 {
+					got = ext(mine[i])
+				} else {
+					rec := httptest.NewRecorder()
+					e.ServeHTTP(rec, mine[i])
+					got = rec.Body.String()
+				}
+				if got != want[i] {
+					bads[g] = &bad{g: g, it: it, i: i, got: got}
+					return
+				}
+			}
+		}(g)
+	}
+	close(start)
+	wg.Wait()
+	for _, b := range bads {
+		if b == nil || oracle != "" {
+			continue
+		}
+		if b.panicked {
+			oracle = fmt.Sprintf("panic in goroutine %d of %d calling one extractor concurrently: %s", b.g, par, b.got)
+			continue
+		}
+		q := reqs[b.i]
+		oracle = fmt.Sprintf("%d goroutines calling ONE extractor (%d) concurrently: call %d of goroutine %d for request %d (peer %q X-Forwarded-For=%q) returned %q; alone the same request gives %q",
+			par, c.Ext, b.it, b.g, b.i, q.remote, strings.Join(q.xff, "|"), b.got, want[b.i])
+	}
+	tags := append([]string{"concurrent", fmt.Sprintf("concurrent-ext-%d", c.Ext), fmt.Sprintf("concurrent-reqs-%d", c10Min(len(reqs), 8))}, c.optTags()...)
+	ops := wJoin("0", c.cfgWire(), wInt(c.Ext), wInt(nt), strings.Join(tw, " "), wInt(len(reqs)), strings.Join(reqWire, " "))
+	return Result{Ops: ops, Obs: wJoin(wInt(len(reqs)), strings.Join(obs, " ")), Oracle: oracle, Tags: tags, Nontrivial: true}
 }
 
 // c10Ref is the property's own reading for one request: the expected result, the index of the
@@ -1019,6 +1223,9 @@ func c10GenReqCase(r *rand.Rand, big bool) *c10Case {
 		c.Alt = append(c.Alt, lat1s(c10GenList(r, c, r.Intn(4))))
 	}
 	c.AltR = lat1s(c10GenList(r, c, 1+r.Intn(2)))
+	if r.Intn(5) == 0 {
+		c.Phase2 = c10GenPhase2(r, c)
+	}
 	if r.Intn(3) == 0 {
 		n := 1 + r.Intn(3)
 		if r.Intn(10) == 0 {
@@ -1031,6 +1238,83 @@ func c10GenReqCase(r *rand.Rand, big bool) *c10Case {
 			}
 			c.More = append(c.More, m)
 		}
+	}
+	return c
+}
+
+// c10GenPhase2: the extractor the application installs later.  Mostly a STRICTER one than the first (direct
+// instead of a header extractor, a class switched off, ranges removed), with requests whose peers and chains
+// were chosen for the first configuration — what the old extractor would still accept.
+func c10GenPhase2(r *rand.Rand, c *c10Case) *c10Phase {
+	p := &c10Phase{}
+	c2 := &c10Case{}
+	switch r.Intn(6) {
+	case 0, 1: // header extractor -> direct
+		p.Ext = 0
+	case 2: // same kind, private networks no longer trusted, ranges dropped
+		p.Ext = c.Ext
+		p.Opts = []c10Opt{{K: 2, V: false}}
+	case 3: // same kind, nothing trusted but the ranges
+		p.Ext = c.Ext
+		p.Opts = []c10Opt{{K: 0, V: false}, {K: 1, V: false}, {K: 2, V: false}}
+		for _, n := range c.Nets {
+			n := n
+			if r.Intn(2) == 0 {
+				p.Opts = append(p.Opts, c10Opt{K: 3, Net: &n})
+			}
+		}
+	case 4: // the other header
+		p.Ext = 3 - c.Ext
+		if p.Ext < 1 || p.Ext > 2 {
+			p.Ext = 2
+		}
+		p.Opts = append([]c10Opt(nil), c.Opts...)
+	default: // anything
+		p.Ext = r.Intn(3)
+		f := r.Intn(8)
+		c2.setCfg(r, f&1 != 0, f&2 != 0, f&4 != 0, c10GenNets(r))
+		p.Opts = c2.Opts
+	}
+	c2.Ext, c2.Opts = p.Ext, p.Opts
+	c2.derive()
+	for n := 1 + r.Intn(4); n > 0; n-- {
+		src := c
+		if r.Intn(3) == 0 {
+			src = c2
+		}
+		q := c10GenReq(r, src, false)
+		if r.Intn(4) == 0 {
+			q.Remote = c.Remote
+		}
+		p.Reqs = append(p.Reqs, q)
+	}
+	if r.Intn(2) == 0 {
+		// the base request once more, now under the new extractor
+		p.Reqs = append(p.Reqs, c10ReqJ{Remote: c.Remote, Real: c.Real, XFF: c.XFF})
+	}
+	return p
+}
+
+// c10GenConcurrent: one extractor, a set of requests with different chains, many goroutines.
+func c10GenConcurrent(r *rand.Rand, tier string) *c10Case {
+	c := &c10Case{Kind: 2, Ext: 2, Par: 8, Iter: 1500}
+	if tier == "thorough" {
+		c.Par, c.Iter = 8+r.Intn(9), 4000
+	}
+	if r.Intn(5) == 0 {
+		c.Ext = 1
+	}
+	f := 7
+	if r.Intn(3) == 0 {
+		f = r.Intn(8)
+	}
+	c.setCfg(r, f&1 != 0, f&2 != 0, f&4 != 0, c10GenNets(r))
+	for n := 3 + r.Intn(10); n > 0; n-- {
+		q := c10GenReq(r, c, r.Intn(3) == 0)
+		if len(q.XFF) == 0 {
+			q.XFF = lat1s([]string{c10Addr(r, c, 1) + ", " + c10Addr(r, c, 0)})
+		}
+		c.More = append(c.More, q)
 	}
 	return c
 }
@@ -1240,6 +1524,13 @@ func c10Gen(r *rand.Rand, tier string) []any {
 	for i := 0; i < n; i++ {
 		out = append(out, c10GenReqCase(r, tier == "thorough" && i%4 == 0))
 	}
+	nc := 30
+	if tier == "thorough" {
+		nc = 200
+	}
+	for i := 0; i < nc; i++ {
+		out = append(out, c10GenConcurrent(r, tier))
+	}
 	return out
 }
 
@@ -1284,6 +1575,36 @@ func c10Shrink(ci any) []any {
 	}
 	if c.Kind == 1 {
 		return out
+	}
+	if c.Kind == 2 {
+		// keep the concurrency, drop requests and options
+		if len(c.More) > 2 {
+			for i := range c.More {
+				d := cp()
+				d.More = append(d.More[:i], d.More[i+1:]...)
+				out = append(out, d)
+			}
+		}
+		return out
+	}
+	if c.Phase2 != nil {
+		d := cp()
+		d.Phase2 = nil
+		out = append(out, d)
+		for i := range c.Phase2.Reqs {
+			d := cp()
+			p := *c.Phase2
+			p.Reqs = append(append([]c10ReqJ(nil), p.Reqs[:i]...), p.Reqs[i+1:]...)
+			d.Phase2 = &p
+			out = append(out, d)
+		}
+		for i := range c.Phase2.Opts {
+			d := cp()
+			p := *c.Phase2
+			p.Opts = append(append([]c10Opt(nil), p.Opts[:i]...), p.Opts[i+1:]...)
+			d.Phase2 = &p
+			out = append(out, d)
+		}
 	}
 	if len(c.More) > 0 {
 		d := cp()
@@ -1361,7 +1682,7 @@ func c10Min(a, b int) int {
 func init() {
 	register(&Prop{
 		ID:             "C10",
-		Rule:           "(a) requests: extractor {direct, X-Real-IP, X-Forwarded-For} x all 8 trust-flag combinations x 0-5 (rarely 20/21) extra ranges (CIDR pool incl. ranges inside / straddling the built-in classes, random prefix lengths, 16-byte / mixed-length / non-contiguous IPNets), passed as an ORDERED option list: canonical, only the non-default flags (down to no option at all), ranges before flags, any interleaving, flags given twice with the last value counting x peers (RemoteAddr with ports, brackets, malformed) x X-Forwarded-For lists built as prefix ++ [untrusted or unparsable entry] ++ trusted suffix over 0-4 header lines with spaces (ASCII and Unicode), brackets, garbage, IPv4 / IPv6 / IPv4-mapped literals, plus free-form lists; every case also runs variants that differ only in attacker-controlled input (entries left of the decisive hop, headers of an untrusted peer) and requires the same result; each request goes through Context.RealIP and the extractor directly; a third of the cases continue with 1-12 unrelated requests (own reference reading each) through the same Echo instance and extractor closure and then repeat the base request. (b) classification tables: for every first octet and every (thorough) or boundary (quick) second octet the trust decision for b0.b1.0.1 and b0.b1.255.254 observed through both header extractors, under all-flags and single-flag configurations; structured IPv6 samples (every first byte x second-byte borders, ::1 neighbourhood, IPv4-mapped); tables around the borders of extra ranges. non-trivial = a request whose result differs from the peer or that ran relational variants, or a table containing both trusted and untrusted addresses; distinct = distinct model op lines",
+		Rule:           "(a) requests: extractor {direct, X-Real-IP, X-Forwarded-For} x all 8 trust-flag combinations x 0-5 (rarely 20/21) extra ranges (CIDR pool incl. ranges inside / straddling the built-in classes, random prefix lengths, 16-byte / mixed-length / non-contiguous IPNets), passed as an ORDERED option list: canonical, only the non-default flags (down to no option at all), ranges before flags, any interleaving, flags given twice with the last value counting x peers (RemoteAddr with ports, brackets, malformed) x X-Forwarded-For lists built as prefix ++ [untrusted or unparsable entry] ++ trusted suffix over 0-4 header lines with spaces (ASCII and Unicode), brackets, garbage, IPv4 / IPv6 / IPv4-mapped literals, plus free-form lists; every case also runs variants that differ only in attacker-controlled input (entries left of the decisive hop, headers of an untrusted peer) and requires the same result; each request goes through Context.RealIP and the extractor directly; a third of the cases continue with 1-12 unrelated requests (own reference reading each) through the same Echo instance and extractor closure and then repeat the base request; a fifth then REPLACE Echo.IPExtractor (mostly by a stricter one: direct, a class switched off, ranges dropped) and serve 1-5 more requests through the same Echo, also through a context acquired and one created by NewContext BEFORE the replacement. (c) concurrency: 30 (thorough 200) cases in which 8-16 goroutines issue a set of 3-12 requests with different chains 1500-4000 times each through ONE extractor value and ONE Echo (extractor calls and ServeHTTP mixed); every single answer must equal the property's reading for its own request. (b) classification tables: for every first octet and every (thorough) or boundary (quick) second octet the trust decision for b0.b1.0.1 and b0.b1.255.254 observed through both header extractors, under all-flags and single-flag configurations; structured IPv6 samples (every first byte x second-byte borders, ::1 neighbourhood, IPv4-mapped); tables around the borders of extra ranges. non-trivial = a request whose result differs from the peer or that ran relational variants, or a table containing both trusted and untrusted addresses; distinct = distinct model op lines",
 		New:            func() any { return &c10Case{} },
 		Gen:            c10Gen,
 		Run:            c10Run,
